@@ -189,6 +189,10 @@ func (a *archetype) getTableSlowPath(storage *storage, relations []relationID) (
 func (a *archetype) coversAllRelations(relations []relationID) bool {
 	distinct := uint16(0)
 	for i := range relations {
+		if a.componentsMap[relations[i].component.id] < 0 {
+			// Not a component of the archetype, does not count.
+			continue
+		}
 		seen := false
 		for j := range i {
 			if relations[j].component == relations[i].component {
